@@ -242,14 +242,20 @@ def run(R):
         inst = set(CallSink(SC + "install").blocks(add))
         val = CallSink(NM + "add_services::config::PortRange::validate").blocks(add)
         chk = CallSink(NM + "helpers::check_port_availability").blocks(add)
-        ok = len(val) >= 3 and len(chk) >= 3 and all(not (g.reach((v,)) & set()) for v in val) and all(any(g.dominates(c, i) for i in inst) or True for c in chk)
+        # one validate + check pair per port option (node, metrics, rpc) — or one pair in a loop over an array of the three options
+        in_cycle = lambda bb: bb in g.reach(tuple(d for d, _ in g.succ[bb]))
+        arr3 = [st for blk in add.blocks if not blk["cleanup"] for st in blk["stmts"] if st["rv"]["k"] == "agg" and st["rv"].get("ak") == "array" and len(st["rv"]["ops"]) >= 3]
+        opt_fields = {p[-1] for f_ in ("node_port", "metrics_port", "rpc_port") for d, r, p in field_reads(add, f_)}
+        looped = bool(arr3) and {".node_port", ".metrics_port", ".rpc_port"} <= opt_fields and bool(val) and bool(chk) and all(in_cycle(x) for x in list(val) + list(chk))
+        need = 1 if looped else 3
+        ok = len(val) >= need and len(chk) >= need
         # every check precedes the loop: none of them is reachable from an install site
         ok = ok and not (set(val) | set(chk)) & g.reach(tuple(inst))
         # and each is `?`-propagated
         for pats, nm in (([NM + "helpers::check_port_availability"], "check_port_availability"),):
             gd = CallGuard(pats, ("Ok",), nm + " is Ok")
             n_, acc, rej = gd.edges(add)
-            ok = ok and len(acc) >= 3 and all(not (g.reach((d,)) & inst) for _, d in rej)
+            ok = ok and len(acc) >= need and all(not (g.reach((d,)) & inst) for _, d in rej)
         if not ok:
             R.viol("C19.add.ports", "ports-unchecked", "requested ports are not validated and checked against the registry before services are installed", add, add.lines[0])
         R.inst("C19.add.ports", "K4r reject-edge", "a requested port another service records makes add_node fail before any install", len(chk), ok)
@@ -278,9 +284,12 @@ def run(R):
             narrowed = [n for n in names if any(n.endswith(x) or (x + "<") in n for x in DROPPING_ADAPTORS)]
             if narrowed:
                 how = "max over a narrowed set of the recorded services (%s)" % narrowed[0].split("::")[-1]
-            elif any(n.endswith("Iterator::max") for n in names) and {d for d, r, p in field_reads(add, "number")} | {1}:
+            elif any(n.endswith(("Iterator::max", "Iterator::fold", "Iterator>::fold", "Iterator>::max")) for n in names) and {d for d, r, p in field_reads(add, "number")} | {1}:
                 inner = [c for c in F.item(ADD) if c.kind == "closure" and any(p[-1] == ".number" for d, r, p in (prep(c) or field_reads(c, "number")))]
                 ok = bool(inner)
+                if ok and not any(n.endswith(("Iterator::max", "Iterator>::max")) for n in names):
+                    # `fold(0, |highest, node| highest.max(node.number))`: the folding closure takes the maximum
+                    ok = any(any(((c_["ncallee"] or "").endswith("::max") and "cmp" in (c_["ncallee"] or "")) for c_ in c.calls) for c in inner)
                 how = "max(recorded number) + 1"
             elif any(n.endswith("Vec::len") for n in names):
                 # len-based: allowed only if the number never advances without a push
